@@ -2,9 +2,10 @@
   C12 — towards `build doc = build (doc.map eraseCustom)`: the builder model reads the directive applications of a
   definition ONLY through `deprecationReason` (fields, enum values; `buildField`, `buildFieldX`, `buildEnumValue`), and that
   reader ignores applications of non-specified directives.  Proved here for the readers themselves; the lift through the
-  environment (`Env.of` stores the definitions; default values are coerced against it) is the open part — stated as
-  `BuildIgnoresCustomStatement` and EVALUATED by the driver on every printed document with applied directives
-  (op `printTA`, key `buildErased`).
+  environment (`Env.of` stores the definitions; default values are coerced against it) is done in `C12_custom_build.lean`
+  for every document the printer denotes (`print_build_roundtrip_custom`).  For ARBITRARY documents (extensions, several
+  blocks) the statement `BuildIgnoresCustomStatement` stays open; it is EVALUATED by the driver on every printed document
+  with applied directives (op `printTA`, key `buildErased`).
 -/
 import PyGqlModel.SdlPrintTA
 namespace PyGql.Props.C12
